@@ -589,6 +589,48 @@ func (P) Generate(g *core.Gen) {
 		}
 		g.Case("seq-same-tree", true, "C14 seq "+strings.Join(subs, "|"))
 	}
+	// unknown-rule warnings where exactly ONE bit campaigns (mostly the last one, vbNumBits-1) and no
+	// deployment ever starts: the warned flag then depends on that single bit
+	for i := 0; i < g.N(40, 1500); i++ {
+		W := int(r.Pick(2, 3, 4, 5))
+		netT := int64(W) - r.Range(0, 1)
+		bit := int(r.Pick(28, 28, 28, 27, 0, r.Range(0, 28)))
+		deps := make([]gdep, chaincfg.DefinedDeployments)
+		for k := range deps {
+			deps[k] = gdep{bit: (bit + 1 + k) % 29, start: p64(1 << 40)}
+		}
+		t := &gtree{}
+		cur := -1
+		windows := int(r.Range(3, 5))
+		for k := 0; k < W*windows+r.Intn(W); k++ {
+			v := uint32(0x20000000)
+			if win := k / W; win >= 1 && (win <= 2 || r.Bool()) {
+				if r.Chance(9, 10) || int64(k%W) < netT-1 {
+					v |= 1 << uint(bit)
+				}
+			}
+			cur = t.add(cur, v, 1000000+int64(k)*60)
+		}
+		var qs []string
+		for k := 0; k < 6; k++ {
+			qn := r.Intn(len(t.nodes))
+			if r.Bool() {
+				qn = int(r.Range(2, int64(windows)))*W + int(r.Pick(-1, 0, 1))
+				if qn >= len(t.nodes) {
+					qn = len(t.nodes) - 1
+				}
+			}
+			switch r.Intn(4) {
+			case 0:
+				qs = append(qs, fmt.Sprintf("w%d@%d", bit, qn))
+			case 1:
+				qs = append(qs, fmt.Sprintf("I%d@%d", r.Intn(2), qn))
+			default:
+				qs = append(qs, fmt.Sprintf("W@%d", qn))
+			}
+		}
+		g.Case("warn-single-bit", true, lineOf(W, netT, deps, t, qs))
+	}
 	// small exported helpers
 	for n := 0; n < 8; n++ {
 		g.Case("unit-str", n < 5, fmt.Sprintf("C14 str %d", n))
